@@ -2452,7 +2452,8 @@ class x86_mn(x86_mn_base):
                 if rmr in dibs and not x86_afs.imm in modr and modr[x86_afs.ad] == False:
                     log.info("No register should be encoded here")
                     return None
-                if m.modifs[sd] is not None and modr[x86_afs.ad] == False:
+                if (m.modifs[sd] is not None or 0xD8 <= m.opc[0] <= 0xDF) \
+                        and modr[x86_afs.ad] == False:
                     # x87 /digit rows are the memory forms; the register
                     # encodings (mod == 3) have their own rows
                     return None
